@@ -22,7 +22,9 @@ theorem fact_translated_all :
       "duallane_DLExtensionOptionsDecorator_AnteHandle", "duallane_DLTxTimeoutHeightDecorator_AnteHandle",
       "duallane_DLValidateMemoDecorator_AnteHandle", "cosmoslane_CLRejectEthereumMsgsDecorator_AnteHandle",
       "cosmoslane_CLVestingMessagesAuthorizationDecorator_AnteHandle",
-      "duallane_DLValidateBasicDecorator_AnteHandle", "keeper_msgServer_SubmitProofExternalOwnedAccount"] := by
+      "duallane_DLValidateBasicDecorator_AnteHandle", "keeper_msgServer_SubmitProofExternalOwnedAccount",
+      "evmlane_ELValidateBasicEoaDecorator_AnteHandle", "evmlane_ELSetupExecutionDecorator_AnteHandle",
+      "evmlane_ELEmitEventDecorator_AnteHandle"] := by
   decide +kernel
 
 theorem fact_uninterpreted :
@@ -31,7 +33,9 @@ theorem fact_uninterpreted :
       "keeper_StateTransition_preCheck: codeHash!=common.BytesToHash(evmtypes.EmptyCodeHash)",
       "keeper_StateTransition_preCheck: codeHash!=(*ast.CompositeLit)",
       "duallane_DLValidateBasicDecorator_AnteHandle: object new_LatestSignerForChainID_01415ad1 = ethtypes.LatestSignerForChainID(vbd.ek.GetEip155ChainId(ctx).BigInt())",
-      "keeper_msgServer_SubmitProofExternalOwnedAccount: object lit_vauthtypes_ProofExternalOwnedAccount_5084c998 = vauthtypes.ProofExternalOwnedAccount{Account: msg.Account, Hash: \"0x\"+hex.EncodeToString(crypto.Keccak256(*ast.ArrayType(vauthtypes.MessageToSign))), Signature: msg.Signature}"] := by
+      "keeper_msgServer_SubmitProofExternalOwnedAccount: object lit_vauthtypes_ProofExternalOwnedAccount_5084c998 = vauthtypes.ProofExternalOwnedAccount{Account: msg.Account, Hash: \"0x\"+hex.EncodeToString(crypto.Keccak256(*ast.ArrayType(vauthtypes.MessageToSign))), Signature: msg.Signature}",
+      "evmlane_ELValidateBasicEoaDecorator_AnteHandle: object new_BytesToAddress_712e99b6 = common.BytesToAddress(from)",
+      "evmlane_ELValidateBasicEoaDecorator_AnteHandle: call evmtypes.IsEmptyCodeHash(codeHash)"] := by
   decide +kernel
 
 end Evermint.Facts.TieMeta
